@@ -131,6 +131,64 @@ def reg_group(name, sc, seed, variant):
                          "y": [None if v != v else float(v) for v in y0]}}
 
 
+FULL_ENCODINGS = [("float-nan", (0.0, 1.0), np.nan, float), ("int-minus1", (0, 1), -1, int), ("int-nan", (0, 1), np.nan, int),
+                  ("str1-unlabeled", ("a", "b"), "unlabeled", str), ("str1-nan", ("a", "b"), "nan", str),
+                  ("object-none", ("a", "b"), None, object),
+                  # (a declared class whose name is wider than the dtype of a label array that never contains it)
+                  ("str-a-horse", ("a", "horse"), "unlabeled", str)]
+
+
+def full_rows_group(name, seed, n, k):
+    """a completely labeled training set (the label array holds no sentinel entry, so its dtype may be too narrow
+    for the sentinel: '<U1' vs 'unlabeled', int vs NaN) and candidates given as external feature rows"""
+    from skactiveml.utils import check_missing_label
+
+    entry = ENTRIES[name]
+    rng = np.random.RandomState(seed)
+    X = rng.normal(size=(n, 2)).round(3)
+    y_abs = np.array([i % 2 for i in range(n)])
+    rng.shuffle(y_abs)
+    if seed % 3 == 0:
+        y_abs[:] = 0                        # only the first class is observed
+    cand = rng.normal(size=(k, 2)).round(3)
+    obs, used = [], []
+    try:
+        for enc in FULL_ENCODINGS:
+            ename, classes, ml, dt = enc
+            y = np.array([classes[int(v)] for v in y_abs], dtype=dt)
+            try:
+                check_missing_label(ml, target_type=y.dtype)
+            except (TypeError, ValueError):
+                continue                    # (a combination the library documents as unsupported)
+            used.append(ename)
+            qs = entry.make(seed, ml, classes)
+            kw = zoo.model_kwargs(entry, ml, classes, seed=seed, variant=0)
+            np.random.seed(5)
+            try:
+                with warnings.catch_warnings():
+                    warnings.simplefilter("ignore")
+                    with np.errstate(all="ignore"):
+                        with pc.time_limit(120):
+                            q, u = qs.query(X.copy(), y, candidates=cand.copy(), batch_size=1, return_utilities=True,
+                                            **kw)
+            except TypeError as ex:
+                if "not compatible" in str(ex):     # an explicit "sentinel type vs label dtype" precondition
+                    used.pop()
+                    continue
+                raise
+            obs.append((ename, np.asarray(u, dtype=float)[0], int(np.asarray(q)[0])))
+        finite = [abs(v) for o in obs for v in o[1] if np.isfinite(v)]
+        scale = max(max(finite), 1e-6) if finite else 1.0
+        events = [{"ev": "Obs", "name": n_, "vals": [[j + 1, _enc(v, scale)] for j, v in enumerate(row)],
+                   "sel": sel + 1, "samekeys": True, "cmpsel": True} for n_, row, sel in obs]
+    except Exception as ex:
+        events = [{"ev": "Raised", "exc": "%s: %s" % (type(ex).__name__, str(ex)[:160]),
+                   "encoding": used[-1] if used else "-"}]
+    return {"id": "pool:%s/fully-labeled-rows-n%d-k%d/seed%d" % (name, n, k, seed), "band": BAND, "events": events,
+            "concrete": {"subject": "pool:" + name, "seed": seed, "encodings": used, "X": X.tolist(),
+                         "y_abstract": y_abs.tolist(), "candidates": cand.tolist()}}
+
+
 REG_ENTRIES = {}
 
 
@@ -343,6 +401,8 @@ def _job(arg):
         return ma_group(*arg[1:])
     if arg[0] == "reg":
         return reg_group(*arg[1:])
+    if arg[0] == "full":
+        return full_rows_group(*arg[1:])
     return clf_group(*arg[1:])
 
 
@@ -390,6 +450,10 @@ def main(tier="quick", seed=0):
         for n_, i in enumerate(rng.choice(len(pool), size=min(per_big[e.cost], len(pool)), replace=False)):
             pick = [encs_all[0]] + [encs_all[int(j)] for j in rng.choice(np.arange(1, len(encs_all)), size=2, replace=False)]
             jobs.append(("pool", e.name, pool[int(i)], int(rng.integers(0, 1000)), n_ % 2, pick))
+    for e in ENTRIES.values():
+        if e.rows:
+            for n_ in range({1: 4, 2: 2, 3: 1}[e.cost] if quick else {1: 30, 2: 12, 3: 4}[e.cost]):
+                jobs.append(("full", e.name, int(rng.integers(0, 1000)), int(rng.integers(3, 7)), int(rng.integers(2, 5))))
     for e in REG_ENTRIES.values():
         pool = [s for s in scenarios if pc.applicable(e, s)]
         for n_, i in enumerate(rng.choice(len(pool), size=min(per_cost[e.cost], len(pool)), replace=False)):
